@@ -1163,6 +1163,43 @@ def current_definition(fn, ref):
     return init
 
 
+def inline_lambda_call(fn, call):
+    """The expression a call of a local lambda stands for, when the lambda's body is one `return <expr>;`
+    (parameters replaced by the arguments; captures refer to the enclosing function's variables as they are)."""
+    if call.get("k") != "call" or (call.get("callee") or {}).get("nm") != "operator()" or "obj" not in call:
+        return None
+    o = strip_all_casts(call["obj"])
+    if o.get("k") != "ref" or o.get("dk") != "local":
+        return None
+    ds = local_defs(fn).get(o["decl"], [])
+    if len(ds) != 1:
+        return None
+    lam = strip_all_casts(ds[0])
+    while lam.get("k") == "construct" and len(lam.get("args", [])) == 1:
+        lam = strip_all_casts(lam["args"][0])
+    if lam.get("k") != "lambda":
+        return None
+    body = lam.get("body") or {}
+    stmts = body.get("body", []) if body.get("k") == "compound" else [body]
+    if len(stmts) != 1 or stmts[0].get("k") != "return" or not isinstance(stmts[0].get("e"), dict):
+        return None
+    prms = lam.get("params", [])
+    args = call.get("args", [])
+    if len(prms) != len(args):
+        return None
+    # captured variables must not be reassigned in the enclosing function (by-value captures would otherwise be stale)
+    pd = {q["decl"] for q in prms}
+    defs = local_defs(fn)
+    for x in walk(stmts[0]["e"]):
+        if x.get("k") == "ref" and x.get("dk") in ("local", "param") and x.get("decl") not in pd:
+            n = len(defs.get(x["decl"], []))
+            if n > 1 or (n == 1 and x.get("dk") == "param"):
+                return None
+        if x.get("k") in ("assign", "cassign"):
+            return None
+    return substitute(stmts[0]["e"], {q["decl"]: a for q, a in zip(prms, args)})
+
+
 def conjuncts(e, polarity=True, fn=None, _depth=0):
     """Atoms that must hold when expression e evaluates to `polarity`.  With fn given, boolean locals
     with one stable definition and one-line in-repo predicates are looked through."""
@@ -1184,6 +1221,8 @@ def conjuncts(e, polarity=True, fn=None, _depth=0):
                 return [atom_of(e, polarity)] + conjuncts(y, polarity, fn, _depth + 1)
         if x.get("k") == "call":
             y = inline_predicate(getattr(fn, "fb", None), x)
+            if y is None:
+                y = inline_lambda_call(fn, x)
             if y is not None:
                 return [atom_of(e, polarity)] + conjuncts(y, polarity, fn, _depth + 1)
     return [atom_of(e, polarity)]
